@@ -409,6 +409,14 @@ def make_fault(gen, v, rng, kind=None):
                 op = {"fam": "pol", "type": "X"} if fam == "pol" else {"fam": "fock", "type": "Creation"}
                 st = {"k": "apply", "op": op, "targets": [t, pt], "via": "env", "env": e, "fault": kind}
             return st
+        seen = getattr(gen, "ops_seen", None) or []
+        foreign = [(j, o) for j, o in enumerate(seen) if o["fam"] in ("custom", "comp") and not (o["fam"] == "comp" and "F" in o.get("state_types", []) and k != "F")]
+        if e and v["env_ok"].get(e) and k in ("F", "P") and foreign and rng.random() < 0.3:
+            # an operation object of another family (custom-state / composite) that an earlier step already applied,
+            # addressed to a part of the envelope through the envelope
+            j, o = foreign[int(rng.integers(0, len(foreign)))]
+            tg = [t] if o["fam"] == "custom" or pt not in lv else [t, pt]
+            return {"k": "apply", "op": o, "op_id": j, "targets": tg, "via": "env", "env": e, "fault": kind}
         if k == "P":
             op = {"fam": "fock", "type": "Creation"}
         elif k == "F":
